@@ -4,6 +4,8 @@ go 1.21
 
 require (
 	github.com/anishathalye/porcupine v1.3.0
+	github.com/grailbio/base v0.0.9
+	github.com/grailbio/bigmachine v0.5.8
 	github.com/grailbio/bigslice v0.0.0
 )
 
@@ -12,8 +14,6 @@ require (
 	github.com/Nvveen/Gotty v0.0.0-20120604004816-cd527374f1e5 // indirect
 	github.com/cespare/xxhash v1.1.0 // indirect
 	github.com/google/pprof v0.0.0-20190930153522-6ce02741cba3 // indirect
-	github.com/grailbio/base v0.0.9 // indirect
-	github.com/grailbio/bigmachine v0.5.8 // indirect
 	github.com/shirou/gopsutil v2.19.9+incompatible // indirect
 	github.com/spaolacci/murmur3 v1.1.0 // indirect
 	golang.org/x/net v0.0.0-20200226121028-0de0cce0169b // indirect
